@@ -360,13 +360,52 @@ def _deliveries(st, pre):
 
 def _reborn(st, cur):
     """queue names whose queue object was deleted within this step (a pipelined delete + declare, or a restart): if the
-    name is there afterwards it is a new queue"""
+    name is there afterwards it is a new queue.  Replies come in request order: the k-th request of a channel that
+    expects a reply is answered by the k-th reply frame of that channel; a close ends the matching."""
     if st["op"] == "RESTART":
         return set(cur["queues"])
     subs = [x.strip().split() for x in st["op"][6:].split("|")] if st["op"].startswith("MULTI ") else [st["op"].split()]
-    if not any(":queue.delete-ok" in fr for fr in st["frames"]):
+    if not any(g and g[0] == "QDEL" for g in subs):
         return set()
-    return {de(g[3]) for g in subs if g and g[0] == "QDEL" and len(g) > 3}
+    replies = {}
+    closes = {}
+    for (c, h, name, args, _) in frames_of(st):
+        if name in REPLY_NAMES or name in ("channel.close", "connection.close"):
+            replies.setdefault((c, h), []).append(name)
+        if name == "channel.close" and len(args) >= 3:
+            try:
+                closes.setdefault((c, h), []).append((int(args[1]), int(args[2])))
+            except ValueError:
+                pass
+    out = set()
+    dead = set()
+    for g in subs:
+        if not g or g[0] not in REPLY_OF or len(g) < 3 or not g[1].isdigit():
+            continue
+        key = (int(g[1]), int(g[2]))
+        if key in dead:
+            continue
+        if g[0] in NOWAIT_FIELD and len(g) > NOWAIT_FIELD[g[0]] and g[NOWAIT_FIELD[g[0]]] == "1":
+            if g[0] == "QDEL":
+                # no reply to tell.  It matters only if the name is declared again later in this step (otherwise the
+                # queue is simply gone, or it survived a refusal); a refusal shows as a close naming queue.delete
+                rs = replies.get(key, [])
+                refused = bool(rs) and rs[0] == "channel.close" and (50, 40) in closes.get(key, [])
+                k = subs.index(g)
+                again = any(x and x[0] == "QD" and len(x) > 3 and x[3] == g[3] for x in subs[k + 1:])
+                if again and not refused:
+                    out.add(de(g[3]))
+            continue
+        rs = replies.get(key, [])
+        if not rs:
+            dead.add(key)
+            continue
+        r = rs.pop(0)
+        if r in ("channel.close", "connection.close"):
+            dead.add(key)
+        elif g[0] == "QDEL" and r == "queue.delete-ok":
+            out.add(de(g[3]))
+    return out
 
 
 def _births(st, i, cur, prev, qborn, uborn):
